@@ -30,6 +30,7 @@ import (
 	"github.com/robfig/soy"
 	"github.com/robfig/soy/ast"
 	"github.com/robfig/soy/data"
+	"github.com/robfig/soy/errortypes"
 	"github.com/robfig/soy/soyhtml"
 	"github.com/robfig/soy/soyjs"
 	"github.com/robfig/soy/soymsg"
@@ -274,11 +275,29 @@ func runC12(e *env) {
 		{"a{msg desc=\"d\"}{plural $n}{case 1}one{default}{$n} Benutzer sind da{/plural}{/msg}{$x}z", data.Map{"x": data.String("&"), "n": data.Int(7)}},
 		{"{msg desc=\"d\"}{plural $n}{default}many{/plural}{/msg}", data.Map{"x": data.String(""), "n": data.Int(4)}},
 		{"{msg desc=\"d\"}{plural $x}{default}many{/plural}{/msg}", data.Map{"x": data.String("not a number"), "n": data.Int(4)}},
+		// NESTED placeholder lookup (ast.MsgNode.Placeholder is breadth first): the same placeholder {$x.y} in a case
+		// and in the default of a plural, on different lines, failing when walked ($x is a string).  Rendered through
+		// a translation, the placeholder walked is the DEFAULT's (two levels below the plural; a case's is three),
+		// whichever form is selected: the line of the error says which one was walked.  From here on
+		// (c12LineFrom) the error's line is compared with the model's (Model/InterpExt.v msg_placeholder).
+		{"{msg desc=\"d\"}{plural $n}{case 1}one\n{$x.y}\n{default}many\n\n{$x.y}{/plural}{/msg}", data.Map{"x": data.String("s"), "n": data.Int(1)}},
+		{"{msg desc=\"d\"}{plural $n}{case 1}one\n{$x.y}\n{default}many\n\n{$x.y}{/plural}{/msg}", data.Map{"x": data.String("s"), "n": data.Int(5)}},
+		{"{msg desc=\"d\"}{plural $n}{case 0}\n{$x.y} none{case 1}one\n\n{$x.y}{default}\n\n\nmany{/plural}{/msg}", data.Map{"x": data.String("s"), "n": data.Int(1)}},
+		{"{msg desc=\"d\"}a\n{$x.y}\nb\n{$x.y}{/msg}", data.Map{"x": data.String("s"), "n": data.Int(1)}},
+		// evalPrint applies each directive right after its own arguments: the Apply of the first truncate fails
+		// (its argument is not an integer) BEFORE the argument of the second, on the next line, is evaluated (it
+		// would fail too): the error is reported on the print's line (Model/Interp.v print_dirs; the line is compared
+		// without a bundle too for these shapes)
+		{"a\n{$x|truncate:'a'|truncate:\n$x.v}", data.Map{"x": data.String("hello")}},
+		{"a\n{$x|truncate:3|truncate:\n$x.v}", data.Map{"x": data.String("hello")}},
 	}
+	const c12LineFrom = 16 // index of the first nested-placeholder shape
 	for j, f := range fixed {
 		files := []srcFile{{"fixed.soy", "{namespace fx}\n\n/**\n * @param x\n * @param? n\n */\n{template .t}\n" + f.body + "\n{/template}\n"}}
+		c12CheckLine = j >= c12LineFrom
 		c12Bundle(e, fmt.Sprintf("fx%d", j), files, "fx.t", []data.Map{f.d}, j == 0)
 	}
+	c12CheckLine = false
 	n := 400 * e.scale
 	for i := 0; i < n; i++ {
 		o := progOpts{depth: 3, directives: true}
@@ -292,6 +311,11 @@ func runC12(e *env) {
 		c12Bundle(e, fmt.Sprintf("reg%d", i), files, entry, dataSets, i%23 == 0)
 	}
 }
+
+// c12CheckLine: the renders through a translation also compare the LINE of the fault-free run's error with the
+// model's (a mismatch of the model; set for the nested-placeholder shapes, elsewhere deviations are only counted
+// in the histogram: error-line-deviation)
+var c12CheckLine bool
 
 func c12Bundle(e *env, key string, files []srcFile, entry string, dataSets []data.Map, sample bool) {
 	b := soy.NewBundle()
@@ -575,6 +599,19 @@ func c12Render(e *env, key string, tofu *soyhtml.Tofu, files []srcFile, entry st
 	if (cls0 == "ok") != (err0 == nil) || (cls0 != "ok" && cls0 != "err") {
 		e.res.Fail(hx.Violation{Kind: "mismatch", What: "fault-free run: model outcome " + rs[0][0] + " vs implementation error " + hx.Q(errStr(err0)), Case: mk("none")}, "")
 		return
+	}
+	if (bsx != "" || c12CheckLine) && cls0 == "err" && err0 != nil && len(rs[0]) > 2 {
+		if fp := errortypes.ToErrFilePos(err0); fp != nil {
+			e.res.Histogram["error-line-compared"]++
+			if ml := strings.TrimPrefix(rs[0][2], "#"); ml != strconv.Itoa(fp.Line()) {
+				e.res.Histogram["error-line-deviation"]++
+				if c12CheckLine {
+					e.res.Fail(hx.Violation{Kind: "mismatch", What: "the line of the fault-free run's error differs from the model's (which placeholder node was walked / which directive failed first)", Case: mk("none"),
+						Expected: "line " + ml, Observed: fmt.Sprintf("line %d: %.160s", fp.Line(), errStr(err0))}, "")
+					return
+				}
+			}
+		}
 	}
 	same := len(w0) == len(rec.calls)
 	for i := 0; same && i < len(w0); i++ {
